@@ -188,8 +188,9 @@ def structure(net):
                 has_dem={n.index: bool(n.has_external_customer) for n in net.nodes})
 
 
-def run_impl(case, step_split=None, seed=1):
-    """returns dict(recs, total, struct) or dict(error=...)"""
+def run_impl(case, step_split=None, seed=1, overrides=None):
+    """returns dict(recs, total, struct) or dict(error=...).  overrides: {period: {node: quantity}} passed to step() as
+    order_quantity_override in the single-supplier shorthand {node: {None: {None: q}}} (only with step_split)"""
     import stockpyl.sim as sim
     import warnings
     sim.issued_backorder_warning = False
@@ -201,8 +202,12 @@ def run_impl(case, step_split=None, seed=1):
             total = sim.simulation(net, T, rand_seed=seed, progress_bar=False, consistency_checks='N')
         else:
             sim.initialize(net, T, rand_seed=seed)
-            for _ in range(T):
-                sim.step(net, consistency_checks='N')
+            for t in range(T):
+                ov = (overrides or {}).get(t) or (overrides or {}).get(str(t))
+                if ov:
+                    sim.step(net, order_quantity_override={int(i): ({None: {None: q}} if q is not None else None) for i, q in ov.items()}, consistency_checks='N')
+                else:
+                    sim.step(net, consistency_checks='N')
             total = sim.close(net)
     return dict(recs=extract_records(net, T), total=F(total), struct=structure(net), net=net)
 
